@@ -5,6 +5,7 @@ The isolation theorems hold for histories without bare-variable definitions and 
 tuple destructuring (the two places where the pinned commit shares cells, C05-D1/D2);
 the counterexamples are kernel-checked.
 -/
+import MechVerif.Gen.BindSkel
 import MechVerif.Model.Store
 namespace MechVerif.Store
 
@@ -569,3 +570,43 @@ theorem C05_table_column_wrong_length_rejected (f : String) (rows : Nat) (cols :
   intro hc; exact h hc.2.2.2.1
 
 end MechVerif.Store
+
+/-! ### the binding decisions as they are written
+
+`Gen/BindSkel.lean` is regenerated from statements.rs, symbol_table.rs and functions.rs on every run
+(`tools/extract_bind.py`); `C05_binding_decisions_as_written` (`decide`) says the extracted record is `expected`. -/
+namespace MechVerif.BindIR
+open MechVerif.Store
+
+/-- **The target lookup of `=` and of `+= -= *= /=`, as written, is the model's**: a mutable name gives its cell, a name
+    defined without `~` is `NotMutable`, an undefined name is `UndefinedVariable` — for every store and every name. -/
+theorem C05_lookup_as_written_is_the_model (s : Store) (n : Name) :
+    lookupAsWritten Gen.BindSkel.skel.assign s n = mutableCell s n ∧
+    lookupAsWritten Gen.BindSkel.skel.opAssign s n = mutableCell s n := by
+  rw [Gen.BindSkel.C05_binding_decisions_as_written]
+  constructor <;> (
+    unfold lookupAsWritten mutableCell
+    cases s.lookup n with
+    | none => rfl
+    | some p => obtain ⟨c, m⟩ := p; cases m <;> rfl)
+
+/-- **A definition, as written, refuses an existing name before it evaluates anything**, exactly when the model does:
+    the prologue answers `VariableAlreadyDefined` iff the name is bound, and then `exec` returns the store unchanged. -/
+theorem C05_define_prologue_as_written (s : Store) (m : Bool) (n : Name) (e : Expr) :
+    (definePrologue Gen.BindSkel.skel.define s n = some .redefine ↔ (s.lookup n).isSome = true) ∧
+    (definePrologue Gen.BindSkel.skel.define s n = some .redefine → exec s (.define m n e) = (s, .error .redefine)) := by
+  rw [Gen.BindSkel.C05_binding_decisions_as_written]
+  have key : definePrologue expected.define s n = some .redefine ↔ (s.lookup n).isSome = true := by
+    unfold definePrologue
+    cases h : (s.lookup n).isSome <;> simp [expected, errOf]
+  refine ⟨key, ?_⟩
+  intro h
+  have hs := key.mp h
+  simp only [exec, hs, if_true]
+
+/-! non-vacuity: a lookup among all variables, exchanged errors, or a definition that saves before the test are refused -/
+example : ({ expected with assign := ⟨true, false, "NotMutableError", "UndefinedVariableError"⟩ } : Skel) ≠ expected := by decide
+example : ({ expected with define := ⟨false, "VariableAlreadyDefinedError", true, true, false⟩ } : Skel) ≠ expected := by decide
+example : ({ expected with functionInputsImmutable := false } : Skel) ≠ expected := by decide
+
+end MechVerif.BindIR
